@@ -25,6 +25,9 @@ fn dispatch(id: &str, tier: Tier) -> i32 {
         "C06" => props::hist::check_c06(tier),
         "C07" => props::hist::check_c07(tier),
         "C08" => props::hist::check_c08(tier),
+        "C12" => props::c12::check(tier),
+        "C13" => props::c13::check(tier),
+        "C28" => props::c28::check(tier),
         "C14" => props::c14::check(tier),
         "C24" => props::c24::check(tier),
         "C25" => props::c25::check(tier),
@@ -43,6 +46,9 @@ fn replay_dispatch(id: &str, family: &str, case: &serde_json::Value) -> Option<V
         "C06" | "C07" | "C08" => Some(props::hist::replay(id, case)),
         "C05" | "C09" | "C10" | "C11" | "C29" => Some(props::hist2::replay(id, case)),
         "C24" => Some(props::c24::replay(case)),
+        "C12" => Some(props::c12::replay(family, case)),
+        "C13" => Some(props::c13::replay(family, case)),
+        "C28" => Some(props::c28::replay(family, case)),
         "C14" => Some(props::c14::replay(family, case)),
         "C25" => Some(props::c25::replay(family, case)),
         "C26" => Some(props::c26::replay(family, case)),
